@@ -77,6 +77,13 @@ pub fn apps() -> Vec<AppDef> {
         s.output_plugins = plugins;
         out.push(AppDef { name, spec: s, bases: vec![json!({"origin_edge": 0, "destination_edge": 4}), json!({"origin_edge": 6})], fields: vec!["origin_edge", "destination_edge"] });
     }
+    // a combined limit whose runtime member checks on every iteration (frequency 0) next to an iteration limit that a longer
+    // search hits: the terminated query is answered with an error response like any other
+    {
+        let mut s = AppSpec::simple(net.clone());
+        s.termination = json!({"type": "combined", "models": [{"type": "query_runtime", "limit": "00:10:00", "frequency": 0}, {"type": "iterations", "limit": 3}]});
+        out.push(AppDef { name: "limits_with_zero_frequency", spec: s, bases: vec![json!({"origin_vertex": 0, "destination_vertex": 1})], fields: vec!["origin_vertex", "destination_vertex"] });
+    }
     // speed table model: state features can be overridden from the query
     let mut s = AppSpec::simple(net.clone());
     s.speed = Some((speeds.clone(), SpeedUnit::KilometersPerHour, Some(DistanceUnit::Meters), Some(TimeUnit::Seconds)));
@@ -307,6 +314,9 @@ fn special_queries(def: &AppDef) -> Vec<(String, Value, bool)> {
             v.push((format!("long_state_feature_name_{}", i), json!({"origin_vertex": 0, "destination_vertex": 4, "state_features": {k: {"distance_unit": "miles", "initial": 0.0}}}), false));
         }
     }
+    if def.name == "limits_with_zero_frequency" {
+        v.push(("search_longer_than_the_limit".into(), json!({"origin_vertex": 5, "destination_vertex": 4}), true));
+    }
     if def.name.starts_with("plain_edge") {
         for (i, e) in [0usize, 1, m - 1, m, 1000].into_iter().enumerate() {
             // identical edges inside the network are a query that can be answered with nothing in it (see the known finding on
@@ -342,7 +352,7 @@ fn special_queries(def: &AppDef) -> Vec<(String, Value, bool)> {
 /// fields without which (or with an ill-typed value of which) the query cannot be answered
 fn required_field(def: &AppDef, field: &str) -> bool {
     match def.name {
-        "plain_vertex" | "plain_vertex_wkt" | "plain_vertex_wkb" | "plain_vertex_geo_json" | "plain_vertex_json" | "plain_vertex_uuid_first" | "plain_vertex_uuid_tree_only" | "speed_vertex" | "grid_search" | "inject_overwrite" | "inject_no_overwrite" | "ksp_single_via" | "yens_k1" | "energy_bev" => field == "origin_vertex",
+        "plain_vertex" | "plain_vertex_wkt" | "plain_vertex_wkb" | "plain_vertex_geo_json" | "plain_vertex_json" | "plain_vertex_uuid_first" | "plain_vertex_uuid_tree_only" | "limits_with_zero_frequency" | "speed_vertex" | "grid_search" | "inject_overwrite" | "inject_no_overwrite" | "ksp_single_via" | "yens_k1" | "energy_bev" => field == "origin_vertex",
         "vertex_rtree" | "edge_rtree" | "load_balancer_haversine" => field == "origin_x" || field == "origin_y",
         "plain_edge" | "plain_edge_tree_only" => field == "origin_edge",
         _ => false,
